@@ -652,7 +652,10 @@ impl RADAU {
                 let r = cont[i] / scal[i];
                 err += r * r;
             }
-            err = (err / n as Float).sqrt().max(1e-10);
+            err = (err / n as Float).sqrt();
+            if !err.is_nan() {
+                err = err.max(1e-10);
+            }
 
             // Optional refinement on first/rejected step
             if err >= 1.0 && (first || reject) {
@@ -674,7 +677,10 @@ impl RADAU {
                     let r = cont[i] / scal[i];
                     err += r * r;
                 }
-                err = (err / n as Float).sqrt().max(1e-10);
+                err = (err / n as Float).sqrt();
+                if !err.is_nan() {
+                    err = err.max(1e-10);
+                }
             }
 
             // --- Computation of hnew ---
